@@ -814,9 +814,55 @@ def check_C03(tier):
                                                 "a rejection of a well-typed expression is counted, not reported"])
 
 
-CHECKS = {"C03": check_C03, "C13": check_C13, "C12": check_C12, "C11": check_C11, "C17": check_C17, "C09": check_C09, "C10": check_C10, "C01": check_C01, "C02": check_C02, "C05": check_C05, "C06": check_C06, "C07": check_C07,
+# ---------------------------------------------------------------------------
+# C04: error containment (Pipeline.tla configurations, lexical families, ill-typed programs)
+
+def pipe_cfg(devs=()):
+    txt = "CONSTANTS\n  Devs = {%s}\n  PipeEmit = \"cases\"\n" % ", ".join('"%s"' % d for d in devs)
+    return txt + "INIT Init\nNEXT Next\nINVARIANT NoEscape\nINVARIANT EmitPipe\nCHECK_DEADLOCK FALSE\n"
+
+
+C04_TEXT_MODES = "none:opt,struct:opt,struct:noopt:undef,map:opt:asbool"
+
+
+def stages_C04(tier):
+    out = [Stage("pipeline", "Pipeline", pipe_cfg(), "C04P", timeout=1800)]
+    for fam, n in C12_FAMILIES[tier]:
+        if fam.startswith("all-"):
+            out.append(Stage("text-%s-%d" % (fam, n), "MC_Lex", lex_cfg(fam, n), "C04T", modes=C04_TEXT_MODES, timeout=3600))
+    for fam, n in C03_REJECT[tier][:2]:
+        out.append(Stage("fault-%s-n%d" % (fam, n), "MC_Err", err_cfg(fam, n, "reject"), "C04F", modes=C04_TEXT_MODES, timeout=2400))
+    for alpha, n in C11_SEQS[tier][:2]:
+        out.append(Stage("seq-%s-len%d" % (alpha, n), "MC_Front", seq_cfg(alpha, n), "C04Q", modes=C04_TEXT_MODES, timeout=2400))
+    return out
+
+
+C04_RULE = ("(a) Pipeline.tla: the Compile pipeline as a machine over stages with the three recover boundaries; TLC checks "
+            "NoEscape (no behaviour ends in a panic) on every sensible configuration - environment kind {none, struct, "
+            "pointer, map, map with a nil member} x AllowUndefinedVariables x Optimize x result directive x Operator {none, "
+            "ok, missing, ill-shaped, non-function, nil member} x ConstExpr {none, ok, missing, non-function, panicking, "
+            "given before Env} x Patch {none, identity, leaf-replacing, ConstantNode-inserting, root-replacing} x 17 "
+            "expression classes x 4 run-time environments - and each configuration is instantiated (2-8 concrete sources "
+            "per class, incl. a 70000-constant literal, lexical and syntax errors, panicking and nil functions) and "
+            "executed: Compile, Run and Eval must return exactly one of result and error and never panic or hang; "
+            "(b) every text of the five class alphabets up to the length bound (quotes, escapes, digits/x/e/_, operators, "
+            "words, an invalid UTF-8 byte, multi-byte runes) through Parse, Compile (4 option sets) and Eval; (c) every "
+            "single-fault ill-typed program of MC_Err.tla and every token sequence of two alphabets through the same; "
+            "non-trivial = a configuration, or a text of >= 2 characters")
+
+
+def check_C04(tier):
+    return run_check("C04", tier, stages_C04(tier), C04_RULE, level="exploration",
+                     assumptions=["a watchdog of 20 s per call stands for 'never hangs'",
+                                  "coverage-guided mutation of arbitrary byte strings is outside this technique: texts are "
+                                  "enumerated over class alphabets instead",
+                                  "user visitors and environment functions that panic themselves are exercised for Run "
+                                  "(recovered) and for ConstExpr; a visitor that panics is user code outside Compile's contract"])
+
+
+CHECKS = {"C04": check_C04, "C03": check_C03, "C13": check_C13, "C12": check_C12, "C11": check_C11, "C17": check_C17, "C09": check_C09, "C10": check_C10, "C01": check_C01, "C02": check_C02, "C05": check_C05, "C06": check_C06, "C07": check_C07,
           "C14": check_C14, "C15": check_C15, "C18": check_C18}
-STAGES = {"C03": stages_C03, "C13": stages_C13, "C12": stages_C12, "C11": stages_C11, "C17": stages_C17, "C09": stages_C09, "C10": stages_C10, "C01": stages_C01, "C02": stages_C02, "C05": stages_C05, "C06": stages_C06, "C07": stages_C07,
+STAGES = {"C04": stages_C04, "C03": stages_C03, "C13": stages_C13, "C12": stages_C12, "C11": stages_C11, "C17": stages_C17, "C09": stages_C09, "C10": stages_C10, "C01": stages_C01, "C02": stages_C02, "C05": stages_C05, "C06": stages_C06, "C07": stages_C07,
           "C14": stages_C14, "C15": stages_C15, "C18": stages_C18}
 
 
